@@ -386,6 +386,14 @@ def rule_sc1(ctx: Ctx):
                 if e.k == "store" and e.op in ("get_state", "set_state"):
                     r.ob(e.key == EVKEY, lambda e=e: mk_finding("SC-1", spec, "Next", cfg, p, "accumulator state addressed with %s instead of the event key" % show(e.key),
                                                                 node=e.node, extra="key"))
+            # the new accumulator is in the store before it is shown to anyone: the emission calls into the rest of the pipeline, which may
+            # raise (the item then counts as folded or the key's later values are all short of it) or push the next item back in
+            ws = [k for k, e in enumerate(p.trace) if e.k == "store" and e.op == "set_state"]
+            es = [k for k, e in enumerate(p.trace) if e.k == "emit" and e.method == "on_next"]
+            if ws and es:
+                r.ob(max(ws) < min(es), lambda: mk_finding(
+                    "SC-1", spec, "Next", cfg, p, "the running value is emitted before the accumulator is written back: an exception raised downstream (caught "
+                    "here as this item's error) or an item pushed back synchronously finds the state of the previous item", extra="store-before-emit"))
         # ---- Completed -------------------------------------------------
         sk_mux_comp = set()
         for p in ctx.paths(spec, "Completed", cfg):
